@@ -480,12 +480,57 @@ func c31Mutex(p *an.Prog, r *an.R) {
 				return true
 			})
 		}
-		if !r.Anchor(already != nil, fname+"/membership test of running") {
+		// lookupHelper: a helper of the package whose every return is the ok of a lookup in running
+		lookupHelper := func(callee *types.Func) bool {
+			hd := helpers[callee]
+			if hd == nil {
+				return false
+			}
+			var okVar types.Object
+			ast.Inspect(hd.Decl.Body, func(m ast.Node) bool {
+				if a2, ok := m.(*ast.AssignStmt); ok && len(a2.Lhs) == 2 && len(a2.Rhs) == 1 {
+					if ix, ok := ast.Unparen(a2.Rhs[0]).(*ast.IndexExpr); ok && selField(info, ix.X, running) {
+						if id, ok := a2.Lhs[1].(*ast.Ident); ok {
+							okVar = info.ObjectOf(id)
+						}
+					}
+				}
+				return true
+			})
+			returnsIt := okVar != nil
+			ast.Inspect(hd.Decl.Body, func(m ast.Node) bool {
+				if rs, ok := m.(*ast.ReturnStmt); ok && (len(rs.Results) != 1 || !isIdentOf(info, rs.Results[0], okVar)) {
+					returnsIt = false
+				}
+				return true
+			})
+			return returnsIt
+		}
+		// `if m.isRunning(repo) {..}`: the helper's result tested directly
+		condCall := false
+		if already == nil {
+			for _, b := range g.C.Blocks {
+				if cond := an.CondOf(b); cond != nil {
+					ast.Inspect(cond, func(m ast.Node) bool {
+						if c, ok := m.(*ast.CallExpr); ok && lookupHelper(an.Callee(info, c)) {
+							condCall = true
+						}
+						return true
+					})
+				}
+			}
+		}
+		if !r.Anchor(already != nil || condCall, fname+"/membership test of running") {
 			continue
 		}
 		notAlready := func(cond ast.Expr, truth bool) bool {
-			return an.UsesObj(info, cond, already) && !truth
+			if already != nil {
+				return an.UsesObj(info, cond, already) && !truth
+			}
+			c, ok := ast.Unparen(cond).(*ast.CallExpr)
+			return ok && lookupHelper(an.Callee(info, c)) && !truth
 		}
+		c31TestAndSet(p, r, info, fname, d, helpers, running, runningMu)
 		// marker removal installed only on the not-already-running path
 		nRemovals := 0
 		for _, l := range g.Locs(func(ast.Node) bool { return true }) {
@@ -569,7 +614,7 @@ func c31Mutex(p *an.Prog, r *an.R) {
 				skipsF := g.Reach(g.Entry(), false, &an.Search{Target: func(k an.Loc) bool { return k == l }, Cut: isF})
 				r.Check(!skipsF, "C31.R2", fname+"/return-true/after-f", rs.Pos(), "`return true` only after f() ran", "With can return true without having called f(): a skipped operation is reported as run")
 			} else {
-				ok := g.GuardedBy(l, func(cond ast.Expr, truth bool) bool { return an.UsesObj(info, cond, already) && truth }, nil)
+				ok := g.GuardedBy(l, func(cond ast.Expr, truth bool) bool { return notAlready(cond, !truth) }, nil)
 				ranF := false
 				for _, fl := range fCalls {
 					if isF(fl) && g.Reach(fl, true, &an.Search{Target: func(k an.Loc) bool { return k == l }}) {
@@ -781,4 +826,121 @@ func c31WhoMayCall(p *an.Prog, r *an.R) {
 
 var c31ExecExceptions = map[string]string{
 	"cmd/zoekt-sourcegraph-indexserver.sourcegraphFake.getBranches/calls/exec.Cmd.Output": "`git rev-parse` in the source repository of the fake (debug) Sourcegraph client: reads a git dir outside the index directory",
+}
+
+// c31TestAndSet: the membership test of the running set and the insertion of the marker form one critical section
+// of runningMu - otherwise two With calls for one repository can both find it free.
+func c31TestAndSet(p *an.Prog, r *an.R, info *types.Info, fname string, d *an.DeclInfo, helpers map[*types.Func]*an.DeclInfo, running, runningMu *types.Var) {
+	isTest := func(n ast.Node) bool {
+		as, ok := n.(*ast.AssignStmt)
+		if !ok || len(as.Lhs) != 2 || len(as.Rhs) != 1 {
+			return false
+		}
+		ix, ok := ast.Unparen(as.Rhs[0]).(*ast.IndexExpr)
+		return ok && selField(info, ix.X, running)
+	}
+	isSet := func(n ast.Node) bool {
+		as, ok := n.(*ast.AssignStmt)
+		if !ok {
+			return false
+		}
+		for _, lh := range as.Lhs {
+			if ix, ok := ast.Unparen(lh).(*ast.IndexExpr); ok && selField(info, ix.X, running) {
+				return true
+			}
+		}
+		return false
+	}
+	has := func(body *ast.BlockStmt, pred func(ast.Node) bool) bool {
+		hit := false
+		ast.Inspect(body, func(m ast.Node) bool {
+			if _, isLit := m.(*ast.FuncLit); isLit {
+				return false
+			}
+			if m != nil && pred(m) {
+				hit = true
+			}
+			return !hit
+		})
+		return hit
+	}
+	locks := func(body *ast.BlockStmt) bool {
+		return has(body, func(m ast.Node) bool {
+			st, ok := m.(ast.Stmt)
+			return ok && (muCall(info, st, runningMu, "Lock", "Unlock") || deferredMuCall(info, st, runningMu, "Unlock"))
+		})
+	}
+	key := fname + "/test-and-set-of-running-in-one-critical-section"
+	// both in one helper: judged inside the helper
+	body := d.Decl.Body
+	where := fname
+	for hf, hd := range helpers {
+		if has(hd.Decl.Body, isTest) && has(hd.Decl.Body, isSet) {
+			body, where = hd.Decl.Body, an.FuncName(hf)
+		}
+	}
+	g := an.NewG(info, body)
+	// a site is the statement itself, or (in With's own body) a call to a helper that contains it
+	site := func(pred func(ast.Node) bool) func(k an.Loc) (bool, bool) {
+		return func(k an.Loc) (bool, bool) {
+			n := g.Node(k)
+			if pred(n) {
+				return true, false
+			}
+			selfLocking := false
+			viaHelper := false
+			an.Inspect(n, false, func(m ast.Node) bool {
+				if c, ok := m.(*ast.CallExpr); ok {
+					if hd := helpers[an.Callee(info, c)]; hd != nil && has(hd.Decl.Body, pred) {
+						viaHelper = true
+						if locks(hd.Decl.Body) {
+							selfLocking = true
+						}
+					}
+				}
+				return true
+			})
+			return viaHelper, selfLocking
+		}
+	}
+	tSite, sSite := site(isTest), site(isSet)
+	var tests, sets []an.Loc
+	selfLockT, selfLockS := false, false
+	for _, k := range g.Locs(func(ast.Node) bool { return true }) {
+		if ok, sl := tSite(k); ok {
+			tests = append(tests, k)
+			selfLockT = selfLockT || sl
+		}
+		if ok, sl := sSite(k); ok {
+			sets = append(sets, k)
+			selfLockS = selfLockS || sl
+		}
+	}
+	if len(tests) == 0 || len(sets) == 0 {
+		r.Und("C31.R1", key, d.Decl.Pos(), fmt.Sprintf("membership test (%d) or insertion of the marker (%d) not found in %s or the helpers it calls", len(tests), len(sets), where))
+		return
+	}
+	pos := g.Node(tests[0]).Pos()
+	if selfLockT || selfLockS {
+		// the test (or the insertion) sits in a helper that takes and releases runningMu on its own, the other one does not sit in it
+		r.Bad("C31.R1", key, pos, "the membership test and the insertion of the marker are in different critical sections of runningMu (one of them in a helper that locks and unlocks by itself): two With calls for the same repository can both pass the test before either inserts its marker, and both run")
+		return
+	}
+	isUnlock := func(k an.Loc) bool { return muCall(info, g.Node(k), runningMu, "Unlock") }
+	isS := func(k an.Loc) bool { ok, _ := sSite(k); return ok }
+	split := false
+	for _, t := range tests {
+		for _, u := range g.Locs(func(ast.Node) bool { return true }) {
+			if !isUnlock(u) {
+				continue
+			}
+			// t -> u without passing the insertion, then u -> insertion
+			if g.Reach(t, true, &an.Search{Target: func(k an.Loc) bool { return k == u }, Cut: isS}) && g.Reach(u, true, &an.Search{Target: isS}) {
+				split = true
+				pos = g.Node(u).Pos()
+			}
+		}
+	}
+	r.Check(!split, "C31.R1", key, pos, "no runningMu.Unlock between the membership test and the insertion of the marker ("+where+")",
+		"runningMu is released between the membership test and the insertion of the marker: two With calls for the same repository can both find it free, and both run")
 }
